@@ -10,6 +10,8 @@
 #include <parmcb/detail/bfs.hpp>
 
 #include <functional>
+#include <iterator>
+#include <list>
 #include <numeric>
 
 #ifdef PARMCB_HAVE_TBB
@@ -278,7 +280,19 @@ public:
         EdgeWeightMapType spanner_weight_map = get(boost::edge_weight,
                 _spanner);
         ExactAlgorithm exact_mcb_algo;
-        _weight += exact_mcb_algo(_spanner, spanner_weight_map, out);
+        std::list<std::list<Edge>> spanner_cycles;
+        exact_mcb_algo(_spanner, spanner_weight_map, std::back_inserter(spanner_cycles));
+
+        // translate the cycles of the spanner into edges (and weights) of the input graph
+        for (const auto &spanner_cycle : spanner_cycles) {
+            std::list<Edge> cycle_edgelist;
+            for (const auto &spanner_e : spanner_cycle) {
+                Edge e = _edge_spanner_to_g.at(spanner_e);
+                cycle_edgelist.push_back(e);
+                _weight += boost::get(_weight_map, e);
+            }
+            *out++ = cycle_edgelist;
+        }
 
         // compute remaining cycles
         parmcb::detail::NonSpannerEdgesCycleBuilder<Graph, WeightMap,
@@ -364,6 +378,7 @@ private:
                 // add edge to spanner
                 Edge spanner_e = std::get<0>(
                         boost::add_edge(spanner_v, spanner_u, _spanner));
+                boost::put(boost::edge_weight, _spanner, spanner_e, boost::get(_weight_map, e));
                 _edge_spanner_to_g[spanner_e] = e;
             } else {
                 // record missing edge from spanner
